@@ -12,9 +12,9 @@ git -C $wt apply $sd/patch.diff || { echo "FAIL apply"; exit 1; }
 (cd $wt && go test -count=1 ./... >/tmp/seed_suite.log 2>&1) || { echo "FAIL existing suite with change"; tail -5 /tmp/seed_suite.log; git -C $wt checkout -q -- .; exit 1; }
 cp $demo $wt/$dest
 pkg=./$(dirname $dest)/
-(cd $wt && go test -count=1 -run 'Demo|Seed' $pkg >/tmp/seed_demo_with.log 2>&1); rc_with=$?
+(cd $wt && go test -count=1 -race -run "Demo|Seed" $pkg >/tmp/seed_demo_with.log 2>&1); rc_with=$?
 git -C $wt checkout -q -- .
-(cd $wt && go test -count=1 -run 'Demo|Seed' $pkg >/tmp/seed_demo_without.log 2>&1); rc_without=$?
+(cd $wt && go test -count=1 -race -run "Demo|Seed" $pkg >/tmp/seed_demo_without.log 2>&1); rc_without=$?
 rm -f $wt/$dest
 echo "$name: suite-with-change=pass demo-with-change rc=$rc_with demo-without rc=$rc_without"
 if [ $rc_with -ne 0 ] && [ $rc_without -eq 0 ]; then
